@@ -79,6 +79,30 @@ var SchemaHoles = [][2][]Tok{
 	{dirOpen(n("extend"), n("input"), n("a"), pt(KBraceL), n("a"), pt(KColon), n("a")), toks(pt(KParenR), pt(KBraceR))},
 }
 
+// SchemaSeedDocs: complete, valid type-system documents (each hole template
+// filled with the constant 1, plus documents for the productions the templates
+// do not contain). Tokens are inserted at every position of each.
+func SchemaSeedDocs() [][]Tok {
+	var docs [][]Tok
+	for _, h := range SchemaHoles {
+		d := append(append(append([]Tok(nil), h[0]...), Tok{KInt, "1"}), h[1]...)
+		docs = append(docs, d)
+	}
+	docs = append(docs,
+		toks(n("type"), n("a"), n("implements"), n("a"), pt(KAmp), n("b"), pt(KBraceL), n("a"), pt(KParenL), n("a"), pt(KColon), pt(KBracketL), n("a"), pt(KBang), pt(KBracketR), pt(KParenR), pt(KColon), n("a"), pt(KBang), pt(KBraceR)),
+		toks(Tok{KString, "x"}, n("interface"), n("a"), pt(KBraceL), Tok{KBlockString, "x"}, n("a"), pt(KColon), n("a"), pt(KBraceR)),
+		toks(n("union"), n("a"), pt(KEquals), pt(KPipe), n("a"), pt(KPipe), n("b")),
+		toks(n("enum"), n("a"), pt(KBraceL), Tok{KString, "x"}, n("a"), n("b"), pt(KBraceR)),
+		toks(n("directive"), pt(KAt), n("a"), n("repeatable"), n("on"), pt(KPipe), n("FIELD"), pt(KPipe), n("OBJECT")),
+		toks(n("schema"), pt(KBraceL), n("query"), pt(KColon), n("a"), n("mutation"), pt(KColon), n("b"), pt(KBraceR), n("scalar"), n("a")),
+		toks(n("extend"), n("type"), n("a"), n("implements"), n("a")),
+		toks(n("extend"), n("union"), n("a"), pt(KEquals), n("a")),
+		toks(n("extend"), n("enum"), n("a"), pt(KBraceL), n("a"), pt(KBraceR)),
+		toks(n("extend"), n("schema"), pt(KBraceL), n("query"), pt(KColon), n("a"), pt(KBraceR)),
+	)
+	return docs
+}
+
 func schemaStream() ([]Tok, *ast.Source) {
 	k := verifrt.Param("k", 3)
 	pi := verifrt.Param("prefix", 0)
@@ -86,6 +110,15 @@ func schemaStream() ([]Tok, *ast.Source) {
 	suf := SchemaSuffixes[pi]
 	if h := verifrt.Param("hole", -1); h >= 0 {
 		pre, suf = SchemaHoles[h][0], SchemaHoles[h][1]
+	}
+	if d := verifrt.Param("doc", -1); d >= 0 {
+		doc := SchemaSeedDocs()[d]
+		total := len(doc) + k
+		verifrt.SetOpt("unwind", total+3)
+		verifrt.SetOpt("depth", 8*total+40)
+		verifrt.SetOpt("merge", verifrt.Param("merge", 0))
+		toks := InsertAtEveryGap(doc, k, Alphabet(SchemaNames, verifrt.Param("invalid", 0) != 0))
+		return toks, Install(toks)
 	}
 	total := len(pre) + k + len(suf)
 	verifrt.SetOpt("unwind", total+3)
